@@ -1081,6 +1081,10 @@ where
                 trace!("timer timed out; closing connection");
                 this.flags.insert(Flags::SHUTDOWN);
 
+                // the expired timer must not fire again on the next poll: it would re-arm the
+                // shutdown timer below each time and the disconnect timeout would never elapse
+                this.ka_timer.clear(line!());
+
                 if let Some(deadline) = this.config.client_disconnect_deadline() {
                     // start shutdown timeout if enabled
                     this.shutdown_timer
@@ -1313,6 +1317,17 @@ where
                     if inner.flags.contains(Flags::WRITE_DISCONNECT) {
                         Poll::Ready(Ok(()))
                     } else {
+                        // however shutdown was entered, it is bounded by the disconnect timeout
+                        if !matches!(inner.shutdown_timer, TimerState::Active { .. }) {
+                            if let Some(deadline) = inner.config.client_disconnect_deadline() {
+                                inner.as_mut().project().shutdown_timer.set_and_init(
+                                    cx,
+                                    sleep_until(deadline.into()),
+                                    line!(),
+                                );
+                            }
+                        }
+
                         // flush buffer and wait on blocked
                         ready!(inner.as_mut().poll_flush(cx))?;
                         Pin::new(inner.as_mut().project().io.as_mut().unwrap())
